@@ -482,6 +482,28 @@ impl FarmSim {
                 }
             }
         }
+        if ok && self.mon.c10 {
+            // a claim compacts the claimer's weight history; it must not change the weight that is in
+            // effect in any epoch (in particular not pull a pending change forward)
+            let until_eff = until.unwrap_or(e);
+            let mut lps: Vec<String> = self.l.open_positions_of(&user).iter().map(|p| p.lp.clone()).collect();
+            lps.sort();
+            lps.dedup();
+            for lp in lps {
+                for ep in until_eff..=(e + 1).min(until_eff + 60) {
+                    if let Some(v) = self.w.lp_weight(who, &lp, ep) {
+                        let want = self.l.user_eff(&user, &lp, ep);
+                        if v != want {
+                            return Err(format!(
+                                "[C10] {what}: afterwards the claimer's weight recorded for epoch {ep} is {v}, but the weight in effect that epoch is {want} (changes take effect from the epoch after the operation; total weight for that epoch: {})",
+                                self.l.total_eff(&lp, ep)
+                            ));
+                        }
+                    }
+                }
+            }
+            st.bump("c10: weight history compared after a claim");
+        }
         self.after_step_pub(&what, ok, &pre, &post, st)?;
         Ok(ok)
     }
